@@ -216,6 +216,7 @@ type c18Stats struct {
 	mu       sync.Mutex
 	outcomes map[string]int64
 	distinct map[c18Case]struct{}
+	deep     map[string]string // system -> the longest history explored (ties: smallest text), for the evidence samples
 }
 
 type c18Case struct {
@@ -245,6 +246,10 @@ func (st *c18Stats) merge(in *c18Inst) {
 	}
 	for k := range in.cases {
 		st.distinct[k] = struct{}{}
+	}
+	if d, ok := st.deep[in.sys.name]; !ok || strings.Count(in.hist, "/") > strings.Count(d, "/") ||
+		(strings.Count(in.hist, "/") == strings.Count(d, "/") && in.hist < d) {
+		st.deep[in.sys.name] = in.hist
 	}
 	st.mu.Unlock()
 	in.outc, in.outs, in.cases = map[string]int64{}, map[c18Cls]int64{}, map[c18Case]struct{}{}
@@ -646,7 +651,7 @@ func (in *c18Inst) sample(pos string, boundary, first, fresh bool) error {
 func (s *c18Sys) show(o c18Op) string {
 	switch o.kind {
 	case c18OpStart:
-		return fmt.Sprintf("start(bucketStart%+v %s)", s.starts[o.arg].d, s.starts[o.arg].name)
+		return fmt.Sprintf("start(%s)", s.starts[o.arg].name)
 	case c18OpToTimer:
 		return "advanceToRollover"
 	default:
@@ -841,18 +846,25 @@ func (s *c18Sys) keyOf(in *c18Inst) string {
 func c18StartGrid(hourStep int) []c18Start {
 	m := map[time.Duration]string{}
 	for i := 0; i*int(time.Hour) < int(c18Period); i += hourStep {
-		m[time.Duration(i)*time.Hour] = fmt.Sprintf("hour %d", i)
+		m[time.Duration(i)*time.Hour] = fmt.Sprintf("bucketStart+%dh", i)
 	}
 	bs := []struct {
 		d    time.Duration
 		name string
-	}{{0, "bucketStart"}, {c18Skew, "bucketStart+skew"}, {c18Period, "bucketEnd=End-2skew"}, {c18Period + c18Skew, "End-skew"}}
+	}{{0, "bucketStart"}, {c18Skew, "bucketStart+skew"}, {c18Period, "bucketEnd(=End-2skew)"}, {c18Period + c18Skew, "End-skew"}}
 	deltas := []time.Duration{0, time.Millisecond, time.Hour - time.Millisecond, time.Hour, time.Hour + time.Millisecond}
 	for _, b := range bs {
 		for _, d := range deltas {
 			for _, sign := range []time.Duration{-1, 1} {
 				k := b.d + sign*d
-				m[k] = fmt.Sprintf("%s%+v", b.name, sign*d)
+				switch {
+				case d == 0:
+					m[k] = b.name
+				case sign > 0:
+					m[k] = fmt.Sprintf("%s + %v", b.name, d)
+				default:
+					m[k] = fmt.Sprintf("%s - %v", b.name, d)
+				}
 			}
 		}
 	}
@@ -919,7 +931,7 @@ func c18Manager(t *testing.T) {
 	r.Bounds["skew"] = c18Skew.String()
 	r.Bounds["depth"] = "closure (rollovers and restarts are bounded, so the history space is finite)"
 
-	stats := &c18Stats{outcomes: map[string]int64{}, distinct: map[c18Case]struct{}{}}
+	stats := &c18Stats{outcomes: map[string]int64{}, distinct: map[c18Case]struct{}{}, deep: map[string]string{}}
 	type sysdef struct {
 		key  c18Key
 		real bool
@@ -962,6 +974,17 @@ func c18Manager(t *testing.T) {
 	}
 	for k, v := range stats.outcomes {
 		r.Outcomes[k] += v
+	}
+	// put two of the longest explored histories in front of the samples (the engine's own samples are short ones)
+	var deep []any
+	for _, d := range defs {
+		if h, ok := stats.deep[d.key.name+" "+d.tag]; ok && len(deep) < 2 {
+			deep = append(deep, map[string]any{"search": d.key.name + " " + d.tag, "history": strings.Split(strings.TrimPrefix(h, "/"), "/")})
+		}
+	}
+	r.Samples = append(deep, r.Samples...)
+	if len(r.Samples) > 6 {
+		r.Samples = r.Samples[:6]
 	}
 	r.Distinct = int64(len(stats.distinct))
 	r.Note("distinct_nontrivial = distinct (system, instant, served certificate, lastConfig nil/non-nil) tuples at which every oracle was evaluated")
